@@ -277,6 +277,137 @@ func ruleIdxSign(c *Ctx, r *Rep, tier string) {
 			})
 		}
 	}
+	// Second part (after the defect hunt of the seventh round: ReferenceStats(id)
+	// for a reference the index does not have, Chunks with a negative start):
+	// in an exported method with an ok or error result – one that can say "no" –
+	// an index or slice bound computed from an integer parameter is shown to be
+	// in range before it is used. The methods of sort.Interface and
+	// heap.Interface are called by those packages with indices in range.
+	for _, pkg := range []string{"internal", "csi", "tabix", "bam"} {
+		for _, fn := range c.FuncsIn(pkg) {
+			if fn.Parent() != nil || fn.Object() == nil || !fn.Object().Exported() || fn.Signature.Recv() == nil {
+				continue
+			}
+			switch fn.Name() {
+			case "Len", "Less", "Swap", "Push", "Pop":
+				continue
+			}
+			res := fn.Signature.Results()
+			canRefuse := false
+			for i := 0; i < res.Len(); i++ {
+				t := res.At(i).Type()
+				if b, ok := t.Underlying().(*types.Basic); ok && b.Kind() == types.Bool {
+					canRefuse = true
+				}
+				if types.Identical(t, types.Universe.Lookup("error").Type()) {
+					canRefuse = true
+				}
+			}
+			if !canRefuse {
+				continue
+			}
+			bc := &boundsCtx{c: c, fn: fn}
+			// does v derive from an integer parameter by arithmetic with constants and clamps?
+			var fromParam func(v ssa.Value, depth int) *ssa.Parameter
+			fromParam = func(v ssa.Value, depth int) *ssa.Parameter {
+				if depth > 6 {
+					return nil
+				}
+				switch x := stripConv(v).(type) {
+				case *ssa.Parameter:
+					if b, ok := x.Type().Underlying().(*types.Basic); ok && b.Info()&types.IsInteger != 0 && b.Info()&types.IsUnsigned == 0 && x != fn.Params[0] {
+						return x
+					}
+				case *ssa.BinOp:
+					if _, isK := x.Y.(*ssa.Const); isK {
+						return fromParam(x.X, depth+1)
+					}
+				case *ssa.Phi:
+					for _, e := range x.Edges {
+						if p := fromParam(e, depth+1); p != nil {
+							return p
+						}
+					}
+				}
+				return nil
+			}
+			idx := 0
+			check := func(at ssa.Instruction, index, of ssa.Value, isIndex bool) {
+				p := fromParam(index, 0)
+				if p == nil {
+					return
+				}
+				n++
+				idx++
+				r.Instance(rule, 1)
+				key := fmt.Sprintf("%s#param-index:%s", c.FnName(fn), paramKey(p))
+				if idx > 1 {
+					key += fmt.Sprintf("~%d", idx)
+				}
+				if lb := bc.lowerBound(index, at.Block(), 0); lb < 0 {
+					r.Fail(rule, key, c.Pos(at.Pos()), fmt.Sprintf("%s, computed from the caller's %s, indexes %s without having been shown non-negative: the method has a result to say no with, and panics instead (a reference id of -1, a region that starts before the reference)", symKey(index), paramKey(p), symKey(of)))
+					return
+				}
+				if isIndex && stripConv(index) == ssa.Value(p) {
+					// the parameter itself as index: also below the length
+					below := false
+					for _, b := range fn.Blocks {
+						iff := ifOf(b)
+						if iff == nil || b.Succs[0] == b.Succs[1] {
+							continue
+						}
+						bo, ok := iff.Cond.(*ssa.BinOp)
+						if !ok {
+							continue
+						}
+						isLenOf := func(v ssa.Value) bool {
+							a, ok := isLenCall(v)
+							return ok && sameExpr(a, of, 0)
+						}
+						edge := -1
+						switch {
+						case stripConv(bo.X) == ssa.Value(p) && isLenOf(bo.Y):
+							switch bo.Op {
+							case token.LSS:
+								edge = 0
+							case token.GEQ:
+								edge = 1
+							}
+						case isLenOf(bo.X) && stripConv(bo.Y) == ssa.Value(p):
+							switch bo.Op {
+							case token.GTR:
+								edge = 0
+							case token.LEQ:
+								edge = 1
+							}
+						}
+						if edge >= 0 && dominatedByEdge(fn, b, edge, at.Block()) {
+							below = true
+						}
+					}
+					if !below {
+						r.Fail(rule, key, c.Pos(at.Pos()), fmt.Sprintf("the caller's %s indexes %s without having been compared with its length: an index with fewer references than the header makes the method panic although it has a result to say no with", paramKey(p), symKey(of)))
+						return
+					}
+				}
+				r.Pass(rule, key, c.Pos(at.Pos()), "shown in range on every path")
+			}
+			allInstrs(fn, func(ins ssa.Instruction) {
+				switch x := ins.(type) {
+				case *ssa.IndexAddr:
+					of := x.X
+					if ld, ok := of.(*ssa.UnOp); ok {
+						of = ld
+					}
+					check(ins, x.Index, of, true)
+				case *ssa.Slice:
+					if x.Low != nil {
+						check(ins, x.Low, x.X, false)
+					}
+				}
+			})
+		}
+	}
 	if n < 2 {
 		r.Instance(rule, 1)
 		r.Fail(rule, "index#external-indices", "-", fmt.Sprintf("only %d indices taken from the record found in the index packages (2 confirmed by reading): the rule's anchor moved", n))
